@@ -45,6 +45,13 @@ func NewLocalStore(dir string, opt StoreOptions) (LocalStore, error) {
 	return LocalStore{Base: dir, Opt: opt, converters: opt.converters()}, nil
 }
 
+// walkRoot returns the directory Verify and Prune have to walk. filepath.Walk does not
+// follow symlinks, not even for the root it is given, so a store location that is a
+// symlink to the store directory needs to be resolved first.
+func (s LocalStore) walkRoot() (string, error) {
+	return filepath.EvalSymlinks(s.Base)
+}
+
 // GetChunk reads and returns one (compressed!) chunk from the store
 func (s LocalStore) GetChunk(id ChunkID) (*Chunk, error) {
 	_, p := s.nameFromID(id)
@@ -96,6 +103,10 @@ func (s LocalStore) StoreChunk(chunk *Chunk) error {
 // n determines the number of concurrent operations. w is used to write any messages
 // intended for the user, typically os.Stderr.
 func (s LocalStore) Verify(ctx context.Context, n int, repair bool, w io.Writer) error {
+	root, err := s.walkRoot()
+	if err != nil {
+		return err
+	}
 	var wg sync.WaitGroup
 	ids := make(chan ChunkID)
 
@@ -127,7 +138,7 @@ func (s LocalStore) Verify(ctx context.Context, n int, repair bool, w io.Writer)
 
 	// Go trough all chunks underneath Base, filtering out other files, then feed
 	// the IDs to the workers
-	err := filepath.Walk(s.Base, func(path string, info os.FileInfo, err error) error {
+	err = filepath.Walk(root, func(path string, info os.FileInfo, err error) error {
 		// See if we're meant to stop
 		select {
 		case <-ctx.Done():
@@ -171,8 +182,12 @@ func (s LocalStore) Verify(ctx context.Context, n int, repair bool, w io.Writer)
 // Prune removes any chunks from the store that are not contained in a list
 // of chunks
 func (s LocalStore) Prune(ctx context.Context, ids map[ChunkID]struct{}) error {
+	root, err := s.walkRoot()
+	if err != nil {
+		return err
+	}
 	// Go trough all chunks underneath Base, filtering out other directories and files
-	err := filepath.Walk(s.Base, func(path string, info os.FileInfo, err error) error {
+	err = filepath.Walk(root, func(path string, info os.FileInfo, err error) error {
 		// See if we're meant to stop
 		select {
 		case <-ctx.Done():
